@@ -9,6 +9,7 @@ package main
 import (
 	"fmt"
 	"math/big"
+	"strings"
 
 	"cosmossdk.io/math"
 
@@ -22,7 +23,7 @@ func init() {
 		ID:    "C14",
 		Level: "fault_enumeration",
 		Rule: "history points = all states of a BFS (depth 3 quick / 5 thorough) over {deposit, deposit-with-caller, two minting receives, pause/unpause of both flags, max body size 131/8000}; at each point every money-moving request " +
-			"(deposit to a registered / all-zero / wrong-length messenger, with-caller with a good / 31-byte caller, minting receive) runs under every fault plan in {none, fail-before, fail-after}^(number of dependency calls); " +
+			"(deposit to a registered / all-zero / wrong-length messenger, with-caller with a good / 31-byte caller, minting receive) runs under every fault plan in {none, fail-before, fail-after, panic}^(number of dependency calls); " +
 			"an injected failure or a late validation failure must surface as an error (then all four stores and the event stream are compared with the pre-state), a success must have had no fault, nil results from transfer+burn (or mint) and a MessageSent (or a marked nonce); " +
 			"distinct_nontrivial = distinct (flags, request, fault plan, outcome) tuples with at least one injected or late failure",
 		Assumptions: []string{"faults are injected at the BankKeeper / FiatTokenfactoryKeeper interfaces handed to NewKeeper", "fail-after means the dependency applied its effect to the branch and then returned an error"},
@@ -94,7 +95,7 @@ func c14Run(r *Run, depth, shard int) {
 		for i := 0; i < n; i++ {
 			var nx [][]int
 			for _, p := range out {
-				for f := 0; f < 3; f++ {
+				for f := 0; f < 4; f++ {
 					nx = append(nx, append(append([]int{}, p...), f))
 				}
 			}
@@ -145,6 +146,13 @@ func c14Run(r *Run, depth, shard int) {
 						r.Distinct(fmt.Sprintf("%s|%s|%v|%s", flags, pb.name, plan, o.Class()))
 					}
 					switch {
+					case o.Panicked && strings.Contains(o.PanicVal, "injected dependency panic"):
+						// a panicking dependency aborts the transaction (baseapp recovers and rolls back)
+						r.Class("fault-surfaced")
+						if HashBytes(post) != HashBytes(n.Dump) {
+							r.Violate("C14 failed transaction left effects behind: "+pb.name, fmt.Sprintf("%s: %v", a.Desc, DiffDumps(n.Dump, post)), rp("", ""))
+						}
+						c14PublicUnchanged(r, w, view, pb.name, a, rp)
 					case o.Panicked:
 						r.Class("panic")
 						r.Violate("C14 panic under fault injection: "+pb.name, fmt.Sprintf("%s plan=%v: %s", a.Desc, plan, o.PanicVal), rp("", ""))
@@ -189,6 +197,7 @@ func c14Run(r *Run, depth, shard int) {
 						if HashBytes(post) != HashBytes(n.Dump) || len(o.Events) != 0 {
 							r.Violate("C14 failed transaction left effects behind: "+pb.name, fmt.Sprintf("%s: %v events=%d", a.Desc, DiffDumps(n.Dump, post), len(o.Events)), rp("", ""))
 						}
+						c14PublicUnchanged(r, w, view, pb.name, a, rp)
 					}
 					if n.Depth == 0 && injected && len(r.Samples) < 5 {
 						r.Sample("faulted", map[string]any{"request": pb.name, "plan(0 none,1 before,2 after)": plan, "deps": depsStr(o.Deps), "observed": o.Class(), "err": o.Err})
@@ -198,4 +207,25 @@ func c14Run(r *Run, depth, shard int) {
 		},
 	}
 	bfs.Explore(r)
+}
+
+
+// c14PublicUnchanged: after a rolled-back transaction the state as seen through
+// export, queries (incl. the used-nonce query for the probed nonce) must equal
+// the pre-state -- not only the raw stores.
+func c14PublicUnchanged(r *Run, w *World, pre View, name string, a Action, rp func(string, string) Replay) {
+	post := ViewOf(w)
+	if !viewEqual(pre, post) {
+		r.Violate("C14 public state differs after a rolled-back transaction: "+name, fmt.Sprintf("%s:\n before %s\n after  %s", a.Desc, pre, post), rp(pre.String(), post.String()))
+		return
+	}
+	cctx, _ := w.ctx.CacheContext()
+	_, err := w.K.UsedNonce(cctx, &cctptypes.QueryGetUsedNonceRequest{SourceDomain: DomEth, Nonce: 50})
+	if (err == nil) != pre.Used[nonceKey(DomEth, 50)] {
+		r.Violate("C14 used-nonce query differs after a rolled-back transaction: "+name, fmt.Sprintf("%s: query says used=%v, before the transaction %v", a.Desc, err == nil, pre.Used[nonceKey(DomEth, 50)]), rp("", ""))
+	}
+	q, err := w.K.NextAvailableNonce(cctx, &cctptypes.QueryGetNextAvailableNonceRequest{})
+	if err != nil || q.Nonce.Nonce != pre.NextNonce {
+		r.Violate("C14 next-nonce query differs after a rolled-back transaction: "+name, a.Desc, rp("", ""))
+	}
 }
